@@ -1074,8 +1074,8 @@ pub mod verif_hooks {
         subjects: &[&str],
     ) -> Result<Vec<bool>, String> {
         let ty = super::regex::RegexType::from_str(regextype).map_err(|e| e.to_string())?;
-        let m = super::regex::RegexMatcher::new(ty, pattern, ignore_case)
-            .map_err(|e| e.to_string())?;
+        let m =
+            super::regex::RegexMatcher::new(ty, pattern, ignore_case).map_err(|e| e.to_string())?;
         let deps = NullDeps {
             out: RefCell::new(vec![]),
         };
@@ -1109,8 +1109,8 @@ pub mod verif_hooks {
         subject: &str,
     ) -> Result<bool, String> {
         let ty = super::regex::RegexType::from_str(regextype).map_err(|e| e.to_string())?;
-        let m = super::regex::RegexMatcher::new(ty, pattern, ignore_case)
-            .map_err(|e| e.to_string())?;
+        let m =
+            super::regex::RegexMatcher::new(ty, pattern, ignore_case).map_err(|e| e.to_string())?;
         let deps = NullDeps {
             out: RefCell::new(vec![]),
         };
